@@ -718,7 +718,7 @@ def completions(n, vs, a):
 
 
 def check(run: Run, tier: str, seed: int):
-    n = 120 if tier == "quick" else 1600
+    n = 240 if tier == "quick" else 1600
     for i in range(n):
         srng = random.Random(f"C20-{seed}-{i}")
         scen = rand_scen(srng, i)
